@@ -3,11 +3,20 @@
    identifiers, labels and URLs is read by the Graphviz double-quoted-ID rule as
    exactly that text and ends exactly at its closing quote; a text passed through
    html.escape is accepted by the HTML-like text/attribute-value rule and denotes
-   exactly that text.  The structure of the drawing (one node per element, one path per
-   relation, annotation rows) is not modelled: it is checked on every case against the
-   real Graphviz (partial). *)
+   exactly that text.  The structure of the drawing is modelled (Dotg.v: the statements
+   prov_to_dot adds to the main graph and to every cluster, in order, with the node
+   identifiers and the shared node_map of the Python code; tied to the pydot object the
+   implementation builds, per run, for all combinations of show_nary x element attributes x
+   relation attributes) and proved: one element node per element record, of its kind, with
+   its URI, in order (C15_elements_one_node_each); one path per relation with two endpoints
+   — a labelled edge, or two edges through one blank node — between nodes of the endpoints'
+   URIs (C15_relation_path); the cluster of a bundle carries its URI and holds one element
+   node per element record of the bundle (C15_cluster_elements); every further end of an n-ary relation has its labelled edge
+   from the blank node to a node of its URI (C15_nary_further_ends).  Labels, annotation
+   rows, styles and Graphviz's acceptance of the text are checked on every case against
+   the real Graphviz (partial). *)
 From Coq Require Import String Ascii List.
-From Prov Require Import Str Dot DotProofs.
+From Prov Require Import Str Sexp Tables Nsm Values Record World Dot DotProofs Dotg DotgProofs.
 Import ListNotations.
 Open Scope string_scope.
 
@@ -33,3 +42,69 @@ Lemma C15_old_quoting_refuted :
   let old_quote s := String dq (s ++ String dq EmptyString) in
   read_quoted_id (old_quote "a""b") = Some ("a", "b""") /\ read_quoted_id (old_quote "ends\") = None.
 Proof. split; vm_compute; reflexivity. Qed.
+
+(* ---- the structure of the drawing (Dotg.v).  container_stmts: the element nodes of a container, then its relations
+   are drawn; elem_nodes: the (class, URL) of the element nodes among a list of statements. *)
+Theorem C15_elements_one_node_each : forall o s recs s' a rels, container_stmts o s recs = (s', a, rels) ->
+  elem_nodes a = flat_map elem_key (filter (fun r => is_element (rkind r)) recs) /\
+  rels = filter (fun r => negb (is_element (rkind r))) recs.
+Proof. exact elements_one_node_each. Qed.
+Print Assumptions C15_elements_one_node_each.
+
+(* path: one edge id0 -> id1 carrying the label, or id0 -> blank (label) and blank -> id1; drawn s st id uri: the node
+   id stands for uri — it was in node_map before (drawn earlier) or its node statement is among st *)
+Theorem C15_relation_path : forall o s r l0 x0 l1 x1 more s' st,
+  ref_args r = (l0, Some x0) :: (l1, Some x1) :: more -> add_relation o s r = (s', st) ->
+  exists id0 id1, path st id0 id1 (edge_label (rkind r)) /\
+                  drawn s st id0 (qn_uri x0) /\ drawn s st id1 (qn_uri x1).
+Proof. exact relation_path. Qed.
+Print Assumptions C15_relation_path.
+
+Theorem C15_nary_further_ends : forall rest s b s' st, nary_edges s b rest = (s', st) ->
+  (forall u x, lookup u (nmap s) = Some x -> lookup u (nmap s') = Some x) /\
+  forall l q, In (l, Some q) rest ->
+    exists id, In (SEdge b id (Some l) false) st /\ lookup (qn_uri q) (nmap s') = Some id.
+Proof. exact nary_further_ends. Qed.
+
+(* the cluster of a bundle carries the bundle's URI and holds exactly one element node per element record of the bundle *)
+Theorem C15_cluster_elements : forall o s kb s' sub body, bundle_cluster o s kb = (s', (sub, body)) ->
+  (exists name, sub = SSub name (match bid (snd kb) with Some q => qn_uri q | None => "" end)) /\
+  elem_nodes body = flat_map elem_key (filter (fun r => is_element (rkind r)) (brecs (snd kb))).
+Proof. exact cluster_elements. Qed.
+Print Assumptions C15_cluster_elements.
+
+(* node_map is sound over the whole drawing: every name it binds has a node statement with that identifier and that URL
+   among the statements emitted (main graph and clusters) — so `drawn` by an earlier binding in C15_relation_path and
+   C15_nary_further_ends means that a node of that URI exists *)
+Theorem C15_node_map_sound : forall o u,
+  let '(main, cls) := dot_of_unified o u in
+  forall s1 a rels s2 cs s3 c,
+    container_stmts o (mkDS 0 0 0 0 []) (brecs (dmain u)) = (s1, a, rels) ->
+    clusters o s1 (dbundles u) = (s2, cs) ->
+    fold_stmts (add_relation o) s2 rels = (s3, c) ->
+    MapOK s3 (a ++ concat (map snd cs) ++ c).
+Proof. exact node_map_sound. Qed.
+Print Assumptions C15_node_map_sound.
+
+(* all node statements of the drawing — main graph and clusters — carry pairwise different identifiers: "exactly one
+   node" is about distinct nodes *)
+Theorem C15_node_ids_distinct : forall o u s1 a rels s2 cs s3 c,
+  container_stmts o (mkDS 0 0 0 0 []) (brecs (dmain u)) = (s1, a, rels) ->
+  clusters o s1 (dbundles u) = (s2, cs) ->
+  fold_stmts (add_relation o) s2 rels = (s3, c) ->
+  NoDup (node_ids (a ++ concat (map snd cs) ++ c)).
+Proof. exact node_ids_distinct. Qed.
+Print Assumptions C15_node_ids_distinct.
+
+Example C15_structure_applies :
+  let ex l := mkQn (mkNs "ex" "http://e/") l in
+  let r := mkRec "Derivation" None [(prov_qn "generatedEntity", [VQn (ex "e2")]); (prov_qn "usedEntity", [VQn (ex "e1")]);
+                                    (prov_qn "activity", [VQn (ex "a")]); (prov_qn "generation", [VQn (ex "g")]);
+                                    (prov_qn "usage", [VQn (ex "u")])] in
+  snd (add_relation (mkDO true true true) (mkDS 0 0 0 0 []) r)
+  = [SNode "b1" "blank" None; SNode "n1" "gen:Entity" (Some "http://e/e2"); SEdge "n1" "b1" (Some "wasDerivedFrom") false;
+     SNode "n2" "gen:Entity" (Some "http://e/e1"); SEdge "b1" "n2" None false;
+     SNode "n3" "gen:Activity" (Some "http://e/a"); SEdge "b1" "n3" (Some "activity") false;
+     SNode "n4" "gen:-" (Some "http://e/g"); SEdge "b1" "n4" (Some "generation") false;
+     SNode "n5" "gen:-" (Some "http://e/u"); SEdge "b1" "n5" (Some "usage") false].
+Proof. exact relation_path_applies. Qed.
